@@ -116,6 +116,7 @@ VF_ORDER = list(VF)
 MK = {
     "val": "public: {R} c{n};",
     "const": "public: const {R} c{n};",
+    "carr": "public: const {R} c{n}[2];",
     "ref": "public: {R} &c{n};",
     "ptr": "public: {R} *c{n};",
     "arr": "public: {R} c{n}[2];",
